@@ -27,6 +27,8 @@ pub struct MemInner {
     pub read_log: Mutex<Vec<String>>,
     /// fail the k-th source access (read or read_dir, counted from 0) with this kind
     pub fault_at: Mutex<Option<(usize, io::ErrorKind)>>,
+    /// one-shot: the next access of this entry ("F:id.ext" / "D:id") fails
+    pub fault_entry: Mutex<Option<(String, io::ErrorKind)>>,
     pub hot: AtomicBool,
     pub no_points: AtomicBool,
 }
@@ -95,11 +97,16 @@ impl Mem {
             ds::yield_now("io");
         }
         let k = self.0.reads.fetch_add(1, Ordering::SeqCst);
-        self.0.read_log.lock().unwrap().push(what);
+        self.0.read_log.lock().unwrap().push(what.clone());
         if let Some((at, kind)) = *self.0.fault_at.lock().unwrap() {
             if at == k {
                 return Err(io::Error::new(kind, "injected fault"));
             }
+        }
+        let mut fe = self.0.fault_entry.lock().unwrap();
+        if fe.as_ref().map(|(w, _)| *w == what).unwrap_or(false) {
+            let (_, kind) = fe.take().unwrap();
+            return Err(io::Error::new(kind, "injected fault"));
         }
         Ok(())
     }
